@@ -1,6 +1,10 @@
 //! bvengine — process-level checks and orchestration of the in-process worker.
 
 mod c02;
+mod c03;
+mod c08;
+mod c19;
+mod inproc;
 mod util;
 
 use bvcommon::report::{PropRun, ReplayFile, Replayed};
@@ -16,6 +20,9 @@ fn usage() -> ! {
 pub fn replay_dispatch(prop: &str, layer: &str, case: &serde_json::Value) -> Result<(String, Verdict), String> {
     match prop {
         "C02" => c02::replay(layer, case),
+        "C03" => c03::replay(layer, case),
+        "C08" => c08::replay(layer, case),
+        "C19" => c19::replay(layer, case),
         _ => Err(format!("no replay handler for property {prop}")),
     }
 }
@@ -107,6 +114,9 @@ fn main() {
     run.apply_known(&mut ctx, &replay_path);
     match prop.as_str() {
         "C02" => c02::run(&mut run, &ctx),
+        "C03" => c03::run(&mut run, &ctx),
+        "C08" => c08::run(&mut run, &ctx),
+        "C19" => c19::run(&mut run, &ctx),
         _ => {
             eprintln!("unknown property {prop}");
             std::process::exit(2);
